@@ -8,7 +8,8 @@
 From Coq Require Import List NArith Bool.
 From Coq Require Import Strings.Byte.
 From GoBT Require Import lib.Bytes lib.VarInt lib.Sha256 model.Tx spec.DigestSpec model.SigHash
-  model.SigHashWire proofs.SigHashProofs proofs.AuditASigHash model.SigHeap proofs.SigHeapProofs.
+  model.SigHashWire proofs.SigHashProofs proofs.AuditASigHash model.SigHeap proofs.SigHeapProofs
+  proofs.SigHeapAliasProofs.
 Import ListNotations.
 Local Open Scope N_scope. Local Open Scope bool_scope.
 
@@ -113,6 +114,51 @@ Example C03_example_heap_denotes :
                 mkInput (repeat_byte 32 xcd) 0 [x52] 7 1 (Some [x51])]
              [mkOutput 1000 [x6a]; mkOutput 2000 [x6a; x6a]] 0).
 Proof. exact ex_heap_denotes. Qed.
+
+(** SHARING INSIDE THE CALLER'S GRAPH.  Neither theorem above assumes that the caller's pointers are distinct: one
+    script cell may be the PreviousTxScript of several inputs, the previous script, unlocking script and locking
+    script of several inputs / outputs at once, one input cell may stand at several positions of tx.Inputs.  Stated
+    on its own: two object graphs denoting the same transaction value give the same outcome for every index and
+    every hash type - which input is "the signed one" is decided by its POSITION, never by which objects it holds. *)
+Theorem C03_sharing_in_callers_graph_is_unobservable : forall h1 p1 h2 p2 t i ht,
+  abs_tx h1 p1 = Some t -> abs_tx h2 p2 = Some t ->
+  snd (legacy_preimage_heap clone_deep h1 p1 i ht) = snd (legacy_preimage_heap clone_deep h2 p2 i ht).
+Proof. exact sharing_unobservable. Qed.
+Print Assumptions C03_sharing_in_callers_graph_is_unobservable.
+(** non-vacuity: an eight-cell graph in which ONE script object is the previous script of inputs 0 and 1, the
+    unlocking script of input 1 and the locking script of the output (input 2 holds equal bytes in an object of its
+    own) denotes a transaction; signing input 0 with ALL blanks inputs 1 and 2 alike. *)
+Example C03_shared_graph_denotes : abs_tx shared_heap shared_ptr = Some shared_value.
+Proof. exact shared_heap_denotes. Qed.
+Example C03_shared_graph_preimage :
+  snd (legacy_preimage_heap clone_deep shared_heap shared_ptr 0 1) =
+  SOk (le_enc 4 1 ++ [x03] ++
+       (repeat_byte 32 x11 ++ le_enc 4 0 ++ [x06] ++ shared_script ++ le_enc 4 4294967295) ++
+       (repeat_byte 32 x22 ++ le_enc 4 3 ++ [x00] ++ le_enc 4 4294967294) ++
+       (repeat_byte 32 x33 ++ le_enc 4 1 ++ [x00] ++ le_enc 4 7) ++
+       [x01] ++ (le_enc 8 3400 ++ [x06] ++ shared_script) ++ le_enc 4 0 ++ le_enc 4 1).
+Proof. exact shared_preimage_all_0. Qed.
+(** REFUTATION (the statement is falsifiable on this machine): the same program whose blanking loop recognises the
+    signed input by the identity of its PreviousTxScript pointer ([by_identity]:
+    if txCopy.Inputs[i].PreviousTxScript != in.PreviousTxScript { blank }) computes the same outcome on graphs
+    without sharing - all 128 legacy types on every input of two such graphs - and the wrong bytes on the shared
+    graph: input 1's script stays in the preimage of input 0, and for input 1 every type without ANYONECANPAY
+    (other than the SINGLE constant) differs from the value-level model.  The refinement theorem is false of it. *)
+Example C03_by_identity_agrees_without_sharing :
+  (forall i ht, In i [0; 1; 2] -> In ht legacy_types ->
+     snd (by_identity unshared_heap 10%nat i ht) = snd (legacy_preimage_heap clone_deep unshared_heap 10%nat i ht)) /\
+  (forall i ht, In i [0; 1] -> In ht legacy_types ->
+     snd (by_identity ex_heap ex_ptr i ht) = snd (legacy_preimage_heap clone_deep ex_heap ex_ptr i ht)).
+Proof. exact by_identity_agrees_without_sharing. Qed.
+Example C03_by_identity_would_not_blank_shared_script :
+  snd (by_identity shared_heap shared_ptr 0 1) <> fst (calc_input_preimage_legacy shared_value 0 1) /\
+  (forall ht, In ht legacy_types -> N.land ht 128 = 0 -> (N.land ht 31 = 3 -> False) ->
+     snd (by_identity shared_heap shared_ptr 1 ht) <> fst (calc_input_preimage_legacy shared_value 1 ht)) /\
+  ~ (forall h p t i ht, abs_tx h p = Some t -> snd (by_identity h p i ht) = fst (calc_input_preimage_legacy t i ht)).
+Proof.
+  exact (conj (proj1 by_identity_refuted) (conj (proj2 (proj2 by_identity_refuted)) by_identity_does_not_refine)).
+Qed.
+Print Assumptions C03_by_identity_would_not_blank_shared_script.
 
 (** inputs with and without unlocking scripts already filled in give the same preimage: two
     transactions that differ only in unlocking scripts (of the signed input or of any other) *)
